@@ -29,6 +29,8 @@ def curve_set(m, rng, ncurves, basis='weight'):
         comps = [pv.Composition(p=x, type='weight') for x in xs]
         if basis == 'molar':
             comps = [c.to_molar(m) for c in comps]
+        elif basis == 'mixed':          # every point carries its own basis (weight, molar, weight, ...)
+            comps = [c if k % 2 == 0 else c.to_molar(m) for k, c in enumerate(comps)]
         perms = [(pv.Permeance(0.02 * math.exp(0.8 * x) * math.exp(-2000 * (1 / T - 1 / 333.15))),
                   pv.Permeance(0.0004 * math.exp(-0.5 * x) * math.exp(-4000 * (1 / T - 1 / 333.15)))) for x in xs]
         curves.append(DiffusionCurve(mixture=m, membrane_name='oracle_membrane', feed_temperature=T,
@@ -72,7 +74,7 @@ def random_config(rng, kinds=KINDS, coarse=False):
     ncurves = rng.choice([1, 1, 2, 3]) if kind.startswith('nonideal') else 0
     return dict(m=m, kind=kind, T0=T0, Tp=Tp, pp=pp, prog=prog, x0=x0, basis=basis, A=A, m0=m0, n=n, dt=dt,
                 P1=P1, P2=P2, ct=ct, prec=5e-5, Texp=Texp, units=units, ip=ip, ncurves=ncurves, mode=mode,
-                Ea1=rng.uniform(-20000, 60000), Ea2=rng.uniform(-20000, 60000), cbasis=rng.choice(['weight', 'molar']))
+                Ea1=rng.uniform(-20000, 60000), Ea2=rng.uniform(-20000, 60000), cbasis=rng.choice(['weight', 'molar', 'mixed']))
 
 
 def build(cfg, rng=None):
